@@ -1242,3 +1242,58 @@ func Mentions(t, sub *Term) bool {
 	}
 	return rec(t)
 }
+
+
+// FreeBVars returns the bound variables that occur free in the given terms.
+func FreeBVars(ts ...*Term) []*Term {
+	var vars []*Term
+	have := map[int]bool{}
+	var walk func(x *Term, bound map[int]bool, seen map[int]bool)
+	walk = func(x *Term, bound map[int]bool, seen map[int]bool) {
+		if seen[x.ID] {
+			return
+		}
+		seen[x.ID] = true
+		if x.Op == "bvar" {
+			if !bound[x.ID] && !have[x.ID] {
+				have[x.ID] = true
+				vars = append(vars, x)
+			}
+			return
+		}
+		if x.Op == "forall" || x.Op == "exists" {
+			nb := map[int]bool{}
+			for k := range bound {
+				nb[k] = true
+			}
+			for _, v := range x.Vars {
+				nb[v.ID] = true
+			}
+			// a different binding context: do not share the seen set
+			for _, a := range x.Args {
+				walk(a, nb, map[int]bool{})
+			}
+			return
+		}
+		for _, a := range x.Args {
+			walk(a, bound, seen)
+		}
+	}
+	for _, t := range ts {
+		walk(t, map[int]bool{}, map[int]bool{})
+	}
+	return vars
+}
+
+// FreshOver returns a fresh symbol that is a function of the bound variables
+// occurring free in deps (and of FreshParams): a name introduced for a term
+// that depends on quantified variables must depend on them too.
+func (c *Ctx) FreshOver(prefix string, s Sort, deps ...*Term) *Term {
+	vars := FreeBVars(deps...)
+	if len(vars) == 0 {
+		return c.Fresh(prefix, s)
+	}
+	n := c.FreshName(prefix)
+	args := append(append([]*Term{}, c.FreshParams...), vars...)
+	return c.App(n, s, args...)
+}
